@@ -420,10 +420,10 @@ def _correspondence(ctx, scratch, runner):
                 cases.append(gen_worker_case(ctx.rng, cid, wd(cid), (a, b, e)))
     # every event once as the only and as the last round
     for ev in B.EVENTS + B.EXTRA_EVENTS:
-        for hist in ([ev], ["pending", ev]):
+        for hist in ([ev], ["pending", ev]) if (ev in B.EVENTS or not ctx.quick) else ([ev],):
             cid += 1
             cases.append(gen_worker_case(ctx.rng, cid, wd(cid), None, hist, 0.0))
-    for _ in range(ctx.pick(40, 400)):
+    for _ in range(ctx.pick(25, 400)):
         cid += 1
         cases.append(gen_worker_case(ctx.rng, cid, wd(cid)))
     for c in cases:
